@@ -212,14 +212,17 @@ impl Outgoing {
         }
     }
 
-    // Here we are assuming that the first unique filter_idx we find while iterating will have the
-    // least corresponding cursor because of the way we insert into the inflight_buffer
+    // The oldest unacknowledged publish of a filter is the one with the least cursor. That is
+    // usually the first one found while iterating, but not always: entries handed back to a
+    // shared subscription group are forwarded again behind later ones
     pub fn retransmission_map(&self) -> HashMap<FilterIdx, Cursor> {
-        let mut o = HashMap::new();
+        let mut o: HashMap<FilterIdx, Cursor> = HashMap::new();
         for (_, filter_idx, cursor) in self.inflight_buffer.iter() {
             // if cursor in None, it means it was a retained publish
-            if !o.contains_key(filter_idx) && cursor.is_some() {
-                o.insert(*filter_idx, cursor.unwrap());
+            if let Some(cursor) = cursor {
+                o.entry(*filter_idx)
+                    .and_modify(|least| *least = (*least).min(*cursor))
+                    .or_insert(*cursor);
             }
         }
 
